@@ -28,7 +28,7 @@ PRINC = [Everyone, 'alice', 'bob', 'group:editors', Authenticated]   # index = m
 PERMS = ['view', 'edit', 'delete']                                      # index = model name
 ACTIONS = [Allow, Deny, 'Maybe']                                        # 2 = neither Allow nor Deny
 
-RULE = ('lineages of 1..8 locations (deciding ACE placed at every depth), each realised BOTH with plain attribute parents and with LAZY parents (a __parent__ property building a fresh wrapper on every access, nothing else keeping it alive), each without __acl__ / with a static ACL / with a callable ACL of 0..6 '
+RULE = ('ACLs also written in other containers (tuple, callable returning list/tuple, generator function, custom iterable, generator object) and principals as list/tuple/set/frozenset; lineages of 1..8 locations (deciding ACE placed at every depth), each realised BOTH with plain attribute parents and with LAZY parents (a __parent__ property building a fresh wrapper on every access, nothing else keeping it alive), each without __acl__ / with a static ACL / with a callable ACL of 0..6 '
         'ACEs over {Allow,Deny}x5 principals x {single name, list, ALL_PERMISSIONS}; every case asks permits() '
         'for one principal subset and one permission and principals_allowed_by_permission(); a case is '
         'non-trivial when at least two ACEs of the lineage hit (order decides) or the deciding ACE is not in '
@@ -39,7 +39,52 @@ class Node:
     pass
 
 
-def build(case, callable_mask=0, variant=0):
+# the same ACL can be handed to pyramid in different CONTAINERS; the decision must not depend on which.  All of these are
+# accepted by the unchanged code (probed): `__acl__` is read once per location and iterated once per query.
+#   genobject = a generator OBJECT stored directly as `__acl__`: one-shot, so the nodes are rebuilt for every query
+ACL_KINDS = ['list', 'tuple', 'callable_list', 'callable_tuple', 'genfunc', 'iterable_class', 'genobject']
+
+
+class FreshIterable:
+    """a custom iterable: every `__iter__` returns a fresh iterator over the ACEs (no __len__, no __getitem__)"""
+
+    def __init__(self, aces):
+        self._aces = aces
+
+    def __iter__(self):
+        return iter(list(self._aces))
+
+
+def wrap_acl(aces, kind):
+    if kind == 'list':
+        return list(aces)
+    if kind == 'tuple':
+        return tuple(aces)
+    if kind == 'callable_list':
+        return lambda: list(aces)
+    if kind == 'callable_tuple':
+        return lambda: tuple(aces)
+    if kind == 'genfunc':
+        def acl_generator():          # a callable __acl__ written as a generator function: fresh generator per call
+            for ace in aces:
+                yield ace
+        return acl_generator
+    if kind == 'iterable_class':
+        return FreshIterable(aces)
+    if kind == 'genobject':
+        return (ace for ace in aces)
+    raise ValueError(kind)
+
+
+def acl_kind(containers, k):
+    """containers: ('uniform', kind) | ('mixed', n): the container kind of location k"""
+    if containers[0] == 'uniform':
+        return containers[1]
+    h = (containers[1] * 2654435761 + k * 40503 + 12345) & 0xffffffff
+    return ACL_KINDS[(h >> 7) % len(ACL_KINDS)]
+
+
+def build(case, callable_mask=0, variant=0, containers=None):
     """real location-aware objects for a case; lineage[0] is the context"""
     nodes = []
     parent = None
@@ -50,7 +95,9 @@ def build(case, callable_mask=0, variant=0):
         if acl is not None:
             aces = [(ACTIONS[a], PRINC[w], realise_perm(p, variant, 31 * k + j))
                     for j, (a, w, p) in enumerate(acl)]
-            if (callable_mask >> k) & 1:
+            if containers is not None:
+                n.__acl__ = wrap_acl(aces, acl_kind(containers, k))
+            elif (callable_mask >> k) & 1:
                 n.__acl__ = (lambda aces=aces: aces)
             else:
                 n.__acl__ = aces
@@ -173,6 +220,49 @@ def impl_lazy(case, callable_mask=0, variant=0):
             'type_ok': type(r).__name__ == ('ACLAllowed' if r else 'ACLDenied')}
 
 
+def impl_containers(case, containers, variant=0):
+    """the case with every ACL in another container kind and the principals as list / tuple / set / frozenset; fresh
+    nodes for every query (a generator object stored as __acl__ serves one query).  A GENERATOR of principals is outside
+    the domain: `ace_principal in principals` consumes it, also in the unchanged code (excluded)."""
+    csalt = containers[1] if containers[0] == 'mixed' else ACL_KINDS.index(containers[1])
+    pcoll = COLLS[(csalt + len(case['princs'])) % len(COLLS)]
+    princs = pcoll(PRINC[i] for i in case['princs'])
+    perm = PERMS[case['perm']]
+    helper = ACLHelper()
+    nodes = build(case, 0, variant, containers)
+    r = helper.permits(nodes[0], princs, perm)
+    at = None
+    if not isinstance(r.ace, str):
+        k = [i for i, n in enumerate(nodes) if n is r.context][0]
+        i = [j for j, ace in enumerate(nodes[k]._aces) if ace is r.ace][0]
+        at = [k, i]
+    allowed = helper.principals_allowed_by_permission(build(case, 0, variant, containers)[0], perm)
+    r2 = ACLAuthorizationPolicy().permits(build(case, 0, variant, containers)[0], princs, perm)
+    granted = {p: bool(helper.permits(build(case, 0, variant, containers)[0], pcoll([p, Everyone]), perm)) for p in allowed}
+    return {'permits': bool(r), 'at': at, 'allowed': sorted(PRINC.index(p) for p in allowed),
+            'policy_agrees': bool(r2) == bool(r), 'allowed_granted': all(granted.values()),
+            'type_ok': type(r).__name__ == ('ACLAllowed' if r else 'ACLDenied')}
+
+
+CMP_KEYS = ('permits', 'at', 'allowed', 'policy_agrees', 'type_ok', 'allowed_granted')
+
+
+def container_deviation(case, got, which):
+    """the first container realisation (of `which`) that decides differently from `got`, or None"""
+    for containers in which:
+        try:
+            alt = impl_containers(case, containers)
+        except Exception as e:
+            alt = {'permits': None, 'at': None, 'allowed': None, 'policy_agrees': False, 'type_ok': False,
+                   'allowed_granted': False, 'raised': '%s: %s' % (type(e).__name__, str(e)[:120])}
+        if any(alt[k] != got[k] for k in CMP_KEYS):
+            alt['realisation'] = ('ACL containers %s, principals as %s' % (
+                containers[1] if containers[0] == 'uniform' else [acl_kind(containers, k) for k in range(len(case['lineage']))],
+                COLLS[((containers[1] if containers[0] == 'mixed' else ACL_KINDS.index(containers[1])) + len(case['princs'])) % len(COLLS)].__name__))
+            return alt
+    return None
+
+
 def spec(case):
     """the property, stated directly on the case: first hit in scanning order"""
     for acl in case['lineage']:
@@ -271,6 +361,12 @@ def check_case(case, model_out, mask):
         if any(lz[k] != got[k] for k in ('permits', 'at', 'allowed', 'policy_agrees', 'type_ok', 'allowed_granted')):
             got = lz
             got['realisation'] = 'lazy parents (__parent__ property building a fresh wrapper on every access)'
+        else:
+            # the same ACLs in other containers (one kind for all locations, and a mix), principals in other collections
+            salt = mask * 7 + len(json.dumps(case))
+            dev = container_deviation(case, got, [('uniform', ACL_KINDS[salt % len(ACL_KINDS)]), ('mixed', salt)])
+            if dev is not None:
+                got = dev
     if got['permits'] != exp or not got['policy_agrees'] or not got['type_ok']:
         viol = {'case': case, 'impl': got, 'expected': {'permits': exp}, 'detail': 'permits() is not the decision of the first matching ACE'}
     elif wf(case) and not got['allowed_granted']:
@@ -345,6 +441,21 @@ def search(ctx):
     aces = [[a, w, p] for a in (0, 1) for w in (0, 1) for p in (0, 1, [0, 1], 'all')]
     acls = [None, []] + [[x] for x in aces] + [[x, y] for x in aces for y in aces]
     viol, n = [], 0
+    # every container kind, uniformly, on every lineage of <= 2 locations with ACLs of <= 2 ACEs over 2 principals
+    small_aces = [[a, w, p] for a in (0, 1) for w in (0, 1) for p in (0, [0, 1])]
+    small_acls = [None, []] + [[x] for x in small_aces] + [[x, y] for x in small_aces for y in small_aces]
+    for lineage in itertools.chain(([a] for a in small_acls), ([a, b] for a in small_acls[:18] for b in small_acls[:18])):
+        for princs in ([1], [1, 0]):
+            case = {'lineage': lineage, 'princs': princs, 'perm': 0}
+            n += 1
+            base = impl(case)
+            dev = container_deviation(case, base, [('uniform', kd) for kd in ACL_KINDS])
+            if dev is not None or base['permits'] != spec(case):
+                _, v = check_case(case, None, 0)
+                viol.append(v or {'case': case, 'impl': dev, 'expected': {'permits': spec(case)},
+                                  'detail': 'the decision depends on the container the ACL is written in'})
+                if len(viol) >= 3:
+                    return {'violations': viol, 'searched': n, 'exhaustive': False}
     # one deciding ACE (Allow / Deny) at every depth of lineages of 1..8 locations, the locations before it without ACL or
     # with an empty / non-matching one; both realisations are compared inside check_case
     for depth in range(1, 9):
@@ -386,6 +497,12 @@ def replay(ctx, rep):
     mo = ctx.run_model([case])[0] if ctx.driver_path else None
     m, v = check_case(case, mo, 0)
     got = impl(case)
+    dev = container_deviation(case, got, [('uniform', kd) for kd in ACL_KINDS] + [('mixed', i) for i in range(20)])
+    if dev is not None:
+        v = v or {'case': case, 'impl': dev, 'expected': {'permits': spec(case)},
+                  'detail': 'the decision depends on the container the ACL is written in'}
+        return {'case': case, 'impl': dev, 'impl_list_acls': got, 'model': mo, 'spec': {'permits': spec(case)},
+                'mismatch': m, 'violation': v, 'violates': True}
     lz = impl(case, lazy=True)
     if any(lz[k] != got[k] for k in ('permits', 'at', 'allowed', 'allowed_granted')):
         return {'case': case, 'impl': dict(lz, realisation='lazy parents'), 'impl_attribute_parents': got, 'model': mo,
